@@ -141,6 +141,27 @@ CLAIMED: dict[str, tuple[str, str, str, str, str]] = {
         "budget is used up and nothing complete is available; every wait and every timeout argument is logged and must match the model.",
         "Trusted: TLC; processing time is zero on the fake clock. Blocking TLS transport timeouts are exercised under C08/C09.",
     ),
+    "C05": (
+        "exploration",
+        "TLA+ spec Datagram (no buffer variable: one outcome per datagram, depending on that datagram only) model-checked by TLC; generated packets "
+        "and seeded interleavings of valid and malformed datagrams through DatagramProtocol, blocking/async datagram endpoints and the UDP client, for "
+        "every serializer in one-shot mode, logged and validated by TLC against DatagramTrace",
+        "DESIGN.md section 4 (C05)",
+        "The input space (packet values, malformed payloads) is explored by seeded generation, not by TLC; every execution is decided by the "
+        "TLC-checked trace specification: exactly one datagram per send whose payload round-trips, exactly one packet or parse error per received "
+        "datagram, no merging/splitting/carry-over.",
+        "Trusted: TLC; Python equality computed by the harness; loopback UDP not dropping the few datagrams of a scenario.",
+    ),
+    "C06": (
+        "exploration",
+        "TLA+ spec ParseTotal (outcome alphabet of a parse step + progress law) model-checked by TLC as the oracle; seeded mutation fuzzing "
+        "(12 operators + structurally extreme documents up to the limit) of every serializer in one-shot / incremental / buffered mode, every parse "
+        "call logged and validated by TLC against ParseTotalTrace; watchdog turns hangs into rejected traces",
+        "DESIGN.md section 3 (C06) and section 9",
+        "TLC cannot enumerate JSON/zlib/pickle byte strings meaningfully: the fuzzer explores, the specification decides every step (only packet, "
+        "need-more or a protocol parse error with >= 1 byte consumed are behaviours).",
+        "Trusted: TLC; the mutation operators' reach. pickle is fuzzed through a restricted unpickler; cbor/msgpack are not importable offline.",
+    ),
 }
 
 NOT_YET = "check not built yet in this revision of /verif (planned: see DESIGN.md section 0); not claimed until its check exists"
